@@ -98,6 +98,7 @@ func c14(c *Ctx) {
 	c14ChecksumFold(c)
 	c14FinAnswered(c, htcp, send)
 	c14PackedKeys(c)
+	c14FlushOnPush(c, htcp)
 	// ---- (1) roles in send()
 	th := fieldStoresIn(send, "Header")
 	// send() may delegate building the headers to helpers (buildPacket(state, payload, flags)): their literals count, with the
